@@ -2,14 +2,20 @@ SPECIFICATION SSpec
 CONSTANTS
   Variants = {"deadline"}
   Relays = {1, 2, 3}
+  ProvSet <- ScenProvSet
   Values = {0, 1, 2, 3}
-  CfgSet <- ScenCfgSet
+  CfgSet = {}
+  TableSet = {"A", "B"}
   BuilderSet = {"std", "plus", "minus", "excl", "half", "boost"}
   AnswerSet <- ScenAnswers
   Headers = {1, 2}
   MaxRounds = 3
-  Keys = {1, 2}
-  MaxAuctions = 2
-  TickWeight = 3
-INVARIANTS Emit WinnerIsArgmax ProvidersOfferedWinner NoWinnerIffNone
+  Keys <- ScenKeys
+  MaxAuctions = 3
+  MaxOpen = 2
+  Deviation = "none"
+  TickWeight = 1
+  DeliverWeight = 3
+  StartWeight = 2
+INVARIANTS Emit WinnerIsArgmax ProvidersOfferedWinner NoWinnerIffNone CacheRight
 CHECK_DEADLOCK FALSE
